@@ -184,7 +184,29 @@ def seed_specs():
     for f in ("example.odt", "simple_table.ods", "frame_image.odp"):
         seeds.append({"kind": "bytesio", "name": f})
         seeds.append({"kind": "folder", "name": f})
+    # the XML parts written by another producer in a legal non-UTF-8 encoding, with non-ASCII text
+    seeds.append({"kind": "recoded", "name": "example.odt", "encoding": "ISO-8859-1"})
+    seeds.append({"kind": "recoded", "name": "simple_table.ods", "encoding": "UTF-16"})
     return seeds
+
+
+def recoded_package(name, encoding):
+    """The sample re-zipped with content.xml / styles.xml / meta.xml declared and encoded in `encoding`,
+    and a paragraph / cell text holding non-ASCII characters."""
+    src = zipfile.ZipFile(SAMPLES / name)
+    buf = io.BytesIO()
+    with zipfile.ZipFile(buf, "w") as out:
+        for info in src.infolist():
+            data = src.read(info.filename)
+            if info.filename in ("content.xml", "styles.xml", "meta.xml"):
+                root = etree.fromstring(data)
+                if info.filename == "content.xml":
+                    for p in root.iter("{%s}p" % NS["text"]):
+                        p.text = "caf\u00e9 cr\u00e8me \u00fc " + (p.text or "")
+                        break
+                data = etree.tostring(root, encoding=encoding, xml_declaration=True)
+            out.writestr(info.filename, data, zipfile.ZIP_STORED if info.filename == "mimetype" else zipfile.ZIP_DEFLATED)
+    return buf.getvalue()
 
 
 class PackageMachine:
@@ -202,7 +224,7 @@ class PackageMachine:
             return [i for i in idx if self.seed_list[i]["name"] != "big.ods"]
         if which == "small":
             names = {"text", "spreadsheet", "presentation", "drawing", "example.odt", "simple_table.ods", "frame_image.odp"}
-            return [i for i in idx if self.seed_list[i]["name"] in names]
+            return [i for i in idx if self.seed_list[i]["name"] in names and self.seed_list[i]["kind"] != "recoded"] + [i for i in idx if self.seed_list[i]["kind"] == "recoded"][:1]
         if which == "templates":
             return idx[:4]
         raise ValueError(which)
@@ -247,6 +269,11 @@ class PackageMachine:
             st.doc = Document(str(path))
             st.model = Model(read_zip(path))
             st.opened_as = "zip-path"
+        elif kind == "recoded":
+            data = recoded_package(name, seed["encoding"])
+            st.doc = Document(io.BytesIO(data))
+            st.model = Model(read_zip(io.BytesIO(data)))
+            st.opened_as = "bytesio"
         elif kind == "bytesio":
             data = (SAMPLES / name).read_bytes()
             st.doc = Document(io.BytesIO(data))
